@@ -48,22 +48,41 @@ def call_graph(facts):
     return cg
 
 
+def reference_api():
+    """public / trait function paths of the reference tree (rules/floors.json '_api'): a function absent from it is NEW code"""
+    global _REF_API
+    try:
+        return _REF_API
+    except NameError:
+        pass
+    import json, os
+    try:
+        _REF_API = set(json.load(open(os.path.join(os.path.dirname(os.path.abspath(__file__)), 'floors.json'))).get('_api') or [])
+    except Exception:
+        _REF_API = set()
+    return _REF_API
+
+
 def entries_of(facts, b, seen=None):
-    """the entry points a (possibly private) writer function stands for"""
+    """the entry points a writer function stands for.  Private functions stand for their callers.  A public inherent / free function
+    that did not exist on the reference tree and that crate code calls is a helper too (its own surface is new explicit API);
+    functions of the reference API and trait methods stand for themselves."""
     seen = seen if seen is not None else set()
     root = _root(facts, b)
     if root['did'] in seen:
         return set()
     seen.add(root['did'])
-    if is_entry(root):
+    path = strip_generics(root['path'])
+    callers = call_graph(facts).get(root['did'], set())
+    new_helper = is_entry(root) and root.get('container') not in ('trait_impl', 'trait') and path not in reference_api() and callers
+    if is_entry(root) and not new_helper:
         ed = getattr(facts, '_frame_entry_did', None)
         if ed is None:
             ed = facts._frame_entry_did = {}
-        ed[strip_generics(root['path'])] = root['did']
-        return {strip_generics(root['path'])}
-    callers = call_graph(facts).get(root['did'], set())
+        ed[path] = root['did']
+        return {path}
     if not callers:
-        return {strip_generics(root['path']) + ' (private, no caller found)'}
+        return {path + ' (private, no caller found)'}
     out = set()
     for d in callers:
         cb = facts.by_did.get(d)
@@ -157,10 +176,11 @@ def check_frame(ctx, pfx, adt, table, why):
             if x[0] in allowed:
                 continue
             eb = ctx.facts.by_did.get(getattr(ctx.facts, '_frame_entry_did', {}).get(x[0]))
-            implicit = eb is None or eb.get('container') in ('trait_impl', 'trait') or bool(call_graph(ctx.facts).get(eb['did']))
-            # a public inherent method / free fn that nothing in the crate calls is new explicit API (a setter the user has to
-            # invoke): it changes no existing behaviour.  Trait methods (dispatched from generic code) and anything the existing
-            # code reaches are implicit writers.
+            implicit = eb is None or eb.get('container') in ('trait_impl', 'trait') or x[0] in reference_api() or bool(call_graph(ctx.facts).get(eb['did']))
+            # a public inherent method / free fn that did NOT exist on the reference tree and that nothing in the crate calls is new
+            # explicit API (a setter the user has to invoke): it changes no existing behaviour.  Trait methods (dispatched from
+            # generic code), functions of the reference API (their behaviour is what users already rely on) and anything the
+            # existing code reaches are implicit writers.
             (extra if implicit else explicit).append(x)
         ctx.check(pfx + '.frame', A, f, not extra, expected='written only by %s (or by new public API that no existing code calls)' % sorted(allowed),
                   found='also written by %s' % extra if extra else '%s%s' % (sorted(x for x in got if x not in explicit), '; explicit new API: %s' % explicit if explicit else ''),
